@@ -1,7 +1,8 @@
 """C18 (bounded): segmentation builder only ever produces valid room partitions."""
 PROP = "C18"
 LEVEL = "exploration"
-ENGINE = "bounded"
+ENGINE = "pyvc+bounded"
+HARNESS_MODULES = ["contracts.c18_segmentation"]
 
 
 def bounded(tier, seed, rep):
@@ -24,9 +25,9 @@ RULE = ("inductive step checked exhaustively: for every board with <= 6 cells (q
         "configurations, every update proposed by candidates(): the result must be a valid partition inside the bounds and "
         "the input must be unchanged (deep comparison + aliasing probe); split_block for every connected block and every "
         "pair of seeds; initial(); seeded random walks on 4x4..6x6; distinct = distinct (board, bounds, partition)")
-TECHNIQUE = ("bounded stand-in for the representation-invariant contract valid(B) => valid(copy_with_update(B, u)) and "
+TECHNIQUE = ("pyvc (proved, all boards and bounds): every update proposed by candidates() for a valid value keeps the block count and every new block size inside the bounds, names distinct existing blocks and conserves the cells; the block-id table is the index of the containing block; _copy_with_update = previous minus excluded (order kept) ++ appended, kept blocks copied when asked, previous only read (split_block / _is_connected by contract); connectivity: bounded stand-in for the representation-invariant contract valid(B) => valid(copy_with_update(B, u)) and "
              "frame (B unchanged) on the real SegmentationBuilder2D, exhaustive over all valid states of small boards")
-LEVEL_TEXT = ("exploration (bounded-exhaustive inductive step): connectivity/partition-ness rest on sets, dicts, deque and "
+LEVEL_TEXT = ("exploration: the counting half of the invariant (block count, block sizes, conservation of cells, copy semantics) is proved for all boards; connectivity/partition-ness rest on sets, dicts, deque and "
               "recursion outside the verified subset; the invariant is checked for every valid state of the small boards")
 LEVEL_NOTE = "trusted: the validity checker in bounded/generator.py (BFS); scope: boards up to 6 / 9 cells exhaustively, walks beyond"
 TRUSTED = ["bounded/generator.py: partition_ok/bounds_ok"]
